@@ -52,7 +52,7 @@ def verify(wd, name, c_source, harness, enforce=None, replace=(), checks=('--bou
     else:
         target = a
     cmd = ['cbmc', target, '--function', harness] if not enforce else ['cbmc', target]
-    cmd += list(checks) + ['--json-ui', '--trace'] + list(extra)
+    cmd += list(checks) + ['--json-ui', '--trace', '--object-bits', '12'] + list(extra)
     if unwind is not None:
         cmd += ['--unwind', str(unwind), '--unwinding-assertions']
     res.cmd = ' '.join(cmd)
